@@ -17,6 +17,48 @@ CHECKS = {
         note="Trusted: the intended relation in Sobolev.tla (closure of the declared parent graph; D(o)=H^k when isotropic; H^max(o) <= D(o) <= H^min(o)); comparisons that sobolevspace.py declares unknown (directional vs HEin/HDivDiv/HCurlDiv) may raise NotImplementedError.",
         design_ref="DESIGN.md §3 C25",
     ),
+    "C13": dict(
+        engine="EqShare",
+        technique="TLC model checking of spec/EqShare.tla (heap of expression objects, cached hashes, expr_equals with eager operand re-pointing) + replay of TLC-generated comparison histories on real ufl objects + single-attribute sweep and pickle/eval(repr) round trips",
+        text="All heaps of N<=5 abstract objects and every reachable sequence of ==/hash calls are model checked: == is an equivalence equal to structural equality, implies equal hash/repr/denotation, cached hashes never stale, sharing acyclic, no comparison changes any object's repr/hash/value (action property). The per-class __eq__/hash/repr projections are read from the real classes by probing and checked by TLC. Exhaustive short histories and seeded random deep ones are replayed on real ufl objects (answer = prediction; operand sharing and hash caching match; all snapshots unchanged); every terminal class gets a single-attribute-difference sweep; a corpus of expressions and forms is checked for the equivalence laws and round trips.",
+        note="Trusted: the abstraction in EqShare.tla; the probing export of the projections; the harness's element class and eval namespace. Round trips are demanded for Expr and Form objects (base-form classes FormSum/Action/Adjoint/Matrix/ZeroBaseForm are recorded as notes). Not exhaustive beyond the stated bounds.",
+        design_ref="DESIGN.md §3 C13",
+    ),
+    "C15": dict(
+        engine="Grouping",
+        technique="TLC exhaustive check of spec/Grouping.tla (step-by-step model of group_form_integrals/build_integral_data against the independent meaning Total) + replay of every TLC-enumerated (form, append option) on real ufl with exact comparison of projected integral data and per-subdomain totals + metadata-pair injectivity binding",
+        text="All forms of the bounded universes (<=4 integrals over ids 1, 2, (1,2), everywhere; 2-3 metadata; 1-2 integral types; 1-2 domains; coordinate derivative none/v1/v2; both append options) are enumerated by TLC; the invariants (totals preserved after every step, no cross-metadata merge, nothing lost or duplicated) hold for the injective canonicaliser; every enumerated line and a seeded sample of the product universe is executed on the real code and must equal the prediction and Total; 33 real metadata pairs (ints, floats, strings, nested dicts, arrays incl. >1000 entries and 9th-digit differences) must merge iff equal.",
+        note="Trusted: Total/Explicit in Grouping.tla; the projection of integrands to atom bags; metadata deep equality. A TypeError raised when one metadata key holds values of different kinds is a refusal outside C15 (note). Exhaustive for the stated slices; the 4-integral product universe is sampled.",
+        design_ref="DESIGN.md §3 C15",
+    ),
+    "C19": dict(
+        engine="Traversal",
+        technique="TLC check of the as-coded explicit-stack traversal / map_expr_dags model over all small DAGs with structurally-equal-but-distinct nodes (spec/Traversal.tla) + exhaustive replay of every TLC behaviour on real ufl objects + TLC-evaluated nearest-ancestor handler resolution over the exported class graph (spec/HandlerResolution.tla) compared with MultiFunction/Transformer/DAGTraverser for all classes",
+        text="For every DAG in the bounds (quick: <=3 nodes all + 4 nodes connected; thorough: <=4 nodes all, 4 nodes arity 3, 5 nodes connected for the unique variants) TLC checks on a loop-by-loop model of traversal.py, compute_expr_hash and map_expr_dags that traversals equal their recursive tree definitions, unique traversals yield every structural class exactly once (operands first in post-order), cutoff variants never descend below a cutoff node, map_expr_dags equals recursive tree application for 5 handler tables x compress x 3 call modes, and every job terminates. Every predicted behaviour is replayed on real ufl objects and compared observable by observable; the resolution rule is checked by TLC on the real class graph and compared for every class x handler sets x 3 dispatchers.",
+        note="Trusted: ufl ==/hash structural incl. operand sharing; sibling order as coded (not required by the property); handler tables from 5 families; BaseForm types (Cofunction) are reported separately, not as violations. Larger DAGs only sampled.",
+        design_ref="DESIGN.md §3 C19",
+    ),
+    "C20": dict(
+        engine="Dispatch",
+        technique="TLC exhaustive check of spec/Dispatch.tla (registry, per-class handler-table caches, algorithm objects; Register/Instantiate/Apply interleavings; as-coded vs intended) + replay of TLC-generated interleavings into real ufl in forked children with dynamically registered @ufl_type classes",
+        text="TLC checks on the intended machine that for all interleavings of <=3 registrations, 2-3 algorithm classes and <=2 instances each, Apply never indexes past a table and always selects the nearest-ancestor handler, independent of whether the class/object existed before the registration; the as-coded machine (cache never refreshed) yields the IndexError counterexample that was replayed on the pinned code. Exhaustive short interleavings and seeded random deep ones are replayed in forked processes on MultiFunction, Transformer, map_expr_dag and DAGTraverser subclasses and on real ufl algorithm classes; every observed handler is compared with the prediction.",
+        note="Trusted: the six-class abstraction of the registry closed under ancestors; handlers observed by returning their own name; process-global registry confined to forked children.",
+        design_ref="DESIGN.md §3 C20",
+    ),
+    "C26": dict(
+        engine="Cells",
+        technique="TLC exhaustive walk over face-lattice constructions in spec/Cells.tla (Euler, typing, recursive consistency, facet/ridge/peak, diamond, strict-total-order laws) + full accessor-table conformance and pair/triple order-law checks against ufl.cell",
+        text="Reference cells are specified as face lattices built from first principles (simplex, hypercube strings, product, cone). TLC visits every (cell, dimension, sub-entity) of the 10 named cells and all flat/nested tensor-product cells of total dimension <= 3 checking Euler characteristic, that every d-entity is a unique named type of dimension d whose own counts and types match that type's construction, facets/ridges/peaks = faces of dimension tdim-1/-2/-3, the diamond property, and on every ordered pair the strict-total-order laws. The printed table is compared with every accessor of every real Cell/TensorProductCell and the order laws are re-checked on the real objects over all pairs and triples and through sorted(). Exhaustive for the stated finite universe.",
+        note="Trusted: the constructions and the (dimension, vertex count) classification in Cells.tla; Euler convention (cell counted as its own tdim-face, no empty face); TensorProductCell accessors raising NotImplementedError are skipped; is_simplex/has_simplex_facets are outside the property (notes only); the direction of the order is arbitrary, only the laws are demanded.",
+        design_ref="DESIGN.md §3 C26",
+    ),
+    "C29": dict(
+        engine="Ordering",
+        technique="TLC: as-coded transcription of cmp_expr (stack loop, one action per iteration, all terminal comparators) executed for every ordered pair with order laws checked on every triple of a term universe; sign-conformance of real cmp_expr on every ordered pair; commutativity of +, *, inner and cmp laws on an enumerated + seeded-random pool of real expressions",
+        text="Ordering.tla models cmp_expr as coded over 79 (quick) / 115 (thorough) terms; TLC checks termination, result in {-1,0,1}, reflexivity, antisymmetry, transitivity, totality and cmp=0 <=> equal modulo index/label numbers on all pairs/triples and emits the full table, which real cmp_expr must match in sign on every ordered pair (shared and unshared objects). On real objects (pool of 619 / 2452 expressions) every ordered pair and triple is checked for the cmp laws and compatible pairs for a+b==b+a, a*b==b*a, inner(a,b)~inner(b,a).",
+        note="Trusted: the numbering-erasing structural filter; ufl == plus bound-index renaming as equality oracle; inputs with pairwise distinct counts. The multi-index length rule of the transcription is selected by probing the real comparator. Sampled, not exhaustive, beyond the universe.",
+        design_ref="DESIGN.md §3 C29",
+    ),
 }
 
 PENDING_REASON = "check not yet built in this round (planned in DESIGN.md §3); not claimed until its TLA+ model and conformance harness exist"
